@@ -264,7 +264,30 @@ def generate(rng, tier="quick"):
         src, dst, _ = rng.choice(order)
         steps += [{"op": "persist", "n": dst}, {"op": "crash", "n": dst}, {"op": "recover", "n": dst},
                   {"op": "deliver", "src": src, "dst": dst}]
-    return {"property": PROP, "config": cfg, "steps": steps, "intent": {"mode": mode, "diff": applied}}
+    intent = {"mode": mode, "diff": applied}
+    if any(d in ("pset:M", "pset:N", "pset:S") for d in applied) and rng.random() < 0.5:
+        # multi-tenant process that builds its parameter sets per session: before node 1 (the end with the
+        # OTHER blinding element) is created, an earlier session of node 1's role - same password and
+        # identities, but node 0's parameter set - ran against node 0's message and was dropped; its
+        # private parameter set died with it, so node 1's set may be built on the very same addresses
+        cfg["ephemeral_params"] = True
+        t = copy.deepcopy(cfg["nodes"][1])
+        t["pset"] = cfg["nodes"][0]["pset"]
+        t["pw"] = cfg["nodes"][0]["pw"] if rng.random() < 0.8 else t["pw"]
+        t["entropy"] = {"mode": "uniform", "seed": rng.randrange(1 << 40)}
+        cfg["nodes"].append(t)
+        ti = len(cfg["nodes"]) - 1
+        rest = []
+        seen = set()
+        for st in steps:
+            if st["op"] in ("boot", "start") and st.get("n") == 0 and st["op"] not in seen:
+                seen.add(st["op"])
+                continue
+            rest.append(st)
+        steps = [{"op": "boot", "n": 0}, {"op": "start", "n": 0}, {"op": "boot", "n": ti}, {"op": "start", "n": ti},
+                 {"op": "deliver", "src": 0, "dst": ti}, {"op": "crash", "n": ti}] + rest
+        intent["previous_tenant"] = True
+    return {"property": PROP, "config": cfg, "steps": steps, "intent": intent}
 
 
 def used_elements_differ(w, a, b):
